@@ -32,6 +32,7 @@ DECIDED = [
     "C10.5 replay: missing/invalid previous results raise; previous results are added to an empty node only, before the decision",
     "C10.6 run_test_node success mapping (False iff error/fail); lost result defaults to error",
     "C10.7 the configuration step of an object creation inherits the root's results (distinct retry identifiers for both steps)",
+    "C10.11 shared_results = own + every bridged node's results (the retry counter and identifiers are derived from its length)",
 ]
 NOT_DECIDED = ["execution sequences over outcome sequences and schedules", "stale results when two runs legitimately share (name, uid)"]
 MIN_INSTANCES = 18
@@ -258,6 +259,9 @@ def run(ctx: Ctx) -> None:
     from . import graphrules as GR
 
     ctx.call(GR.identity_forms, "8")
+    from . import atoms as A
+
+    ctx.call(A.definitions, "11", only=('shared_results','id'))
 
 
 NODE = "cartgraph/node.py"
